@@ -97,21 +97,28 @@ func RunTotal(cfg *TotalConfig) (*Report, error) {
 		progs = append(progs, p)
 	}
 	rep.Programs = len(progs)
-	cfg.Env.GenerateAll(progs)
-	for _, p := range progs {
-		if p.Usable() {
-			rep.Usable++
-		} else if p.Proc.Exit != 0 {
-			rep.GenFail[classify(firstLine(string(p.Proc.Stderr)))]++
-		} else if p.Report != nil {
-			rep.CompileFail[classify(p.Report.Summary())]++
-		}
-	}
 	hostile := HostileDocs()
 	for lo := 0; lo < len(cfg.Cases); lo += cfg.BatchSz {
 		hi := lo + cfg.BatchSz
 		if hi > len(cfg.Cases) {
 			hi = len(cfg.Cases)
+		}
+		// chunk by chunk: generate, execute, decide, release (bounded memory in the thorough tier)
+		cfg.Env.GenerateAll(progs[lo:hi])
+		for _, p := range progs[lo:hi] {
+			if p.Usable() {
+				rep.Usable++
+			} else if p.Proc.Exit != 0 {
+				rep.GenFail[classify(firstLine(string(p.Proc.Stderr)))]++
+			} else if p.Report != nil {
+				rep.CompileFail[classify(p.Report.Summary())]++
+			}
+		}
+		release := func() {
+			for _, p := range progs[lo:hi] {
+				p.Src, p.Report = nil, nil
+				_ = os.RemoveAll(p.Dir)
+			}
 		}
 		var bp []*batch.Program
 		for _, c := range cfg.Cases[lo:hi] {
@@ -120,6 +127,7 @@ func RunTotal(cfg *TotalConfig) (*Report, error) {
 			}
 		}
 		if len(bp) == 0 {
+			release()
 			continue
 		}
 		drv, err := cfg.Env.BuildDriver(bp, cfg.Race)
@@ -297,6 +305,7 @@ func RunTotal(cfg *TotalConfig) (*Report, error) {
 			}
 		}
 		_ = os.RemoveAll(drv.Dir)
+		release()
 	}
 	rep.Wall = time.Since(t0)
 	return rep, nil
